@@ -17,11 +17,29 @@ ALLS = ["active_flows", "flow_invocations", "requests_through_flows", "avg_flow_
 GLABELS = ["http_method", "url", "host", "status_code", "consumer_tag"]
 PLABELS = ["flow_name", "processor_key", "http_method", "url", "host", "status_code", "consumer_tag"]
 
-BUGS = ["stale-cache", "tag-dash-kept", "status-dropped", "last-wins", "size-divisor", "inv-after-cut", "rtf-per-flow",
-        "proc-count-disabled", "active-stale", "gw-missing", "path-always"]
-BENIGN = ["size-since-reload", "counters-cumulative", "reload-as-documented", "doc-path", "doc-size", "one-instrument-per-kind"]
-WITNESSES = {"W_NoEarly": (2, 1, 0), "W_NoPathDev": (2, 1, 0), "W_NoSizeDev": (2, 1, 0), "W_NoReloadDev": (1, 2, 0),
-             "W_NoAlwaysDev": (2, 1, 0), "W_NoDupDev": (2, 1, 0), "W_NoCoarse": (2, 1, 0), "W_NoCut": (2, 1, 0)}
+# bounded instances of MC_X09 (I x P): name -> (MaxTxn, MaxFlush, MaxReload, MaxRestart, MaxScrape, MaxCollect, files, flow sets)
+PROFILES = {
+    "quick": {"a": (2, 2, 1, 0, 1, 0, "{1, 2, 3}", "{1, 4}"),        # labels / labeled endpoints / lists x reload, parser cache
+              "b": (2, 2, 1, 0, 0, 0, "{1}", "{1, 2, 3, 4}"),        # flows and processors x reload
+              "c": (2, 2, 1, 0, 0, 2, "{1, 3}", "{4}"),              # histogram managers
+              "d": (2, 2, 0, 1, 1, 1, "{1, 3}", "{1}"),              # restart
+              "r": (1, 2, 2, 0, 0, 0, "{1, 2, 3}", "{4}"),           # two reloads (back to the start-up file)
+              "l": (3, 1, 0, 0, 0, 3, "{1}", "{4}")},                # three collections
+    "thorough": {"a": (3, 2, 1, 0, 1, 0, "{1, 2, 3}", "{1, 4}"),
+                 "b": (3, 2, 1, 0, 0, 0, "{1}", "{1, 2, 3, 4}"),
+                 "c": (3, 2, 1, 0, 0, 2, "{1, 3}", "{4}"),
+                 "d": (2, 2, 1, 1, 1, 1, "{1, 3}", "{1}"),
+                 "r": (2, 2, 2, 0, 0, 0, "{1, 2, 3}", "{4}"),
+                 "l": (3, 2, 0, 0, 0, 3, "{1}", "{4}")},
+}
+# variant of MetricsI -> the instance in which it shows
+BUGS = {"stale-cache": "a", "tag-dash-kept": "a", "status-dropped": "a", "last-wins": "a", "size-divisor": "a", "gw-missing": "a",
+        "path-always": "a", "inv-after-cut": "b", "rtf-per-flow": "b", "proc-count-disabled": "b", "active-stale": "b",
+        "hist-swapped": "c", "legacy-total": "l"}
+BENIGN = {"size-since-reload": "a", "counters-cumulative": "b", "reload-as-documented": "r", "doc-path": "a", "doc-size": "a",
+          "one-instrument-per-kind": "b", "legacy-counts-first-sight": "c"}
+WITNESSES = {"W_NoEarly": "b", "W_NoPathDev": "a", "W_NoSizeDev": "a", "W_NoReloadDev": "r", "W_NoAlwaysDev": "a", "W_NoDupDev": "b",
+             "W_NoCoarse": "a", "W_NoCut": "b", "W_NoLegacyDev": "c", "W_NoLegacy": "c", "W_NoHist2": "c"}
 
 
 # ------------------------------------------------------------------------------------------------ rendering
@@ -81,7 +99,7 @@ def flow(name, pat, fm=False, fl=(), gate=False, st=0, gm=False, gl=(), rf=False
 def cfg_event(ev, c, flows):
     """start / reload event of a script: the metrics file c = {labels, lepp, gm, sm, gw} and the flows"""
     return {"ev": ev, "labels": list(c["labels"]), "lepp": [list(p) for p in c["lepp"]], "lep": [url_of(p) for p in c["lepp"]],
-            "gm": list(c["gm"]), "sm": list(c["sm"]), "gw": c["gw"], "flows": flows,
+            "gm": list(c["gm"]), "sm": list(c["sm"]), "gw": c["gw"], "flows": flows, "legacy": bool(c.get("legacy", True)) and ev == "start",
             "files": {"flows/%s.yaml" % f["name"]: flow_yaml(f) for f in flows}}
 
 
@@ -107,9 +125,9 @@ def script_of_walk(sid, walk):
             ev.append(txn_event(n, e["t"]))
         elif e["ev"] == "flush":
             ev.append({"ev": "flush", "n": e["n"]})
-        elif e["ev"] == "scrape":
-            ev.append({"ev": "scrape"})
-    ev += [{"ev": "flush", "n": 99}, {"ev": "scrape"}]
+        elif e["ev"] in ("scrape", "collect"):
+            ev.append({"ev": e["ev"]})
+    ev += [{"ev": "flush", "n": 99}, {"ev": "collect"}, {"ev": "scrape"}]
     return script(sid, [["a.t", "v", "{id}"]], ev)
 
 
@@ -154,7 +172,7 @@ def rand_txn(rng, hot):
     blen = rng.choice([0, 0, 3, 10, 25])
     return {"m": rng.choice(["GET", "GET", "POST", "DELETE"]), "us": us, "tag": rng.choice(["-", "-", "A", "B"]),
             "hx": rng.choice(["", "", "1", "2"]), "st": rng.choice([200, 200, 201, 404, 500, 503]), "blen": blen,
-            "clen": rng.choice([-1, -1, blen, blen + 7]), "d": rng.randint(1, 90), "td": rng.randint(90, 120)}
+            "clen": rng.choice([-1, -1, blen, blen + 7]), "d": rng.randint(1, 80), "td": rng.randint(90, 120)}
 
 
 def rand_script(rng, sid, n):
@@ -175,7 +193,9 @@ def rand_script(rng, sid, n):
             m = rng.randint(1, 4)
             pend = max(0, pend - m)
             ev.append({"ev": "flush", "n": m})
-        elif x < 0.88:
+        elif x < 0.78:
+            ev.append({"ev": "collect"})
+        elif x < 0.90:
             ev.append({"ev": "scrape"})
         elif x < 0.96:
             # a reload: often back to a file loaded before (the start-up file among them), sometimes only the flows change
@@ -184,7 +204,7 @@ def rand_script(rng, sid, n):
         else:
             ev += [{"ev": "flush", "n": 99}, {"ev": "scrape"}, cfg_event("start", rng.choice(files), rand_flows(rng, keyed)), {"ev": "scrape"}]
             pend = 0
-    ev += [{"ev": "flush", "n": 99}, {"ev": "scrape"}]
+    ev += [{"ev": "flush", "n": 99}, {"ev": "collect"}, {"ev": "scrape"}]
     return script(sid, known, ev)
 
 
@@ -196,28 +216,28 @@ def class_scripts(base):
     none_ = {"labels": [], "lepp": [["b.t", "x"]], "gm": ["transaction_duration"], "sm": ["active_flows"], "gw": "gw1"}
     fs = [F("f1", ["a.t", "*"], True, ["flow_name", "http_method", "consumer_tag"], True, 418, True, ["flow_name", "processor_key", "url"]),
           F("f2", ["a.t", "v", "{id}"], True, ["flow_name", "status_code"], False, 0, False, [], True, True, ["status_code", "consumer_tag", "host"])]
-    T = lambda m, us, tag, hx, st, blen, clen: {"m": m, "us": us, "tag": tag, "hx": hx, "st": st, "blen": blen, "clen": clen}
-    t = [T("GET", ["a.t", "v", "1"], "A", "", 200, 10, -1), T("GET", ["a.t", "v", "2"], "-", "1", 200, 10, -1),
-         T("POST", ["a.t", "v", "1"], "A", "", 500, 0, 30), T("GET", ["b.t", "x"], "B", "", 200, 4, -1),
-         T("GET", ["a.t", "v", "2"], "B", "", 503, 5, 5), T("GET", ["a.t", "w"], "-", "1", 201, 7, 7)]
+    T = lambda m, us, tag, hx, st, blen, clen, d, td: {"m": m, "us": us, "tag": tag, "hx": hx, "st": st, "blen": blen, "clen": clen, "d": d, "td": td}
+    t = [T("GET", ["a.t", "v", "1"], "A", "", 200, 10, -1, 10, 100), T("GET", ["a.t", "v", "2"], "-", "1", 200, 10, -1, 20, 110),
+         T("POST", ["a.t", "v", "1"], "A", "", 500, 0, 30, 30, 95), T("GET", ["b.t", "x"], "B", "", 200, 4, -1, 40, 90),
+         T("GET", ["a.t", "v", "2"], "B", "", 503, 5, 5, 70, 120), T("GET", ["a.t", "w"], "-", "1", 201, 7, 7, 15, 105)]
     out = []
     # 1: labels A -> B -> A (M8), scraped after every step, with traffic flushed in pieces
     ev = [cfg_event("start", all_on, fs)]
     for i, x in enumerate(t):
         ev.append(txn_event(i + 1, x))
-    ev += [{"ev": "scrape"}, {"ev": "flush", "n": 2}, {"ev": "scrape"}, {"ev": "flush", "n": 9}, {"ev": "scrape"},
+    ev += [{"ev": "scrape"}, {"ev": "flush", "n": 2}, {"ev": "collect"}, {"ev": "scrape"}, {"ev": "flush", "n": 9}, {"ev": "collect"}, {"ev": "scrape"},
            cfg_event("reload", coarse, fs), {"ev": "scrape"}, cfg_event("reload", all_on, fs), {"ev": "scrape"},
-           txn_event(7, t[0]), txn_event(8, t[2]), {"ev": "flush", "n": 9}, {"ev": "scrape"},
-           cfg_event("reload", none_, fs[1:]), {"ev": "scrape"}, txn_event(9, t[1]), {"ev": "flush", "n": 9}, {"ev": "scrape"}]
+           txn_event(7, t[0]), txn_event(8, t[2]), {"ev": "flush", "n": 9}, {"ev": "collect"}, {"ev": "scrape"}, {"ev": "collect"}, {"ev": "scrape"},
+           cfg_event("reload", none_, fs[1:]), {"ev": "scrape"}, txn_event(9, t[1]), {"ev": "flush", "n": 9}, {"ev": "collect"}, {"ev": "scrape"}]
     out.append(script(base, [["a.t", "v", "{id}"]], ev))
     # 2: the same traffic without known endpoints (the path label of an endpoint discovery does not know), restart in between
     ev = [cfg_event("start", all_on, fs)] + [txn_event(i + 1, x) for i, x in enumerate(t)] + \
-         [{"ev": "flush", "n": 9}, {"ev": "scrape"}, cfg_event("start", coarse, fs[:1]), {"ev": "scrape"}, txn_event(7, t[1]),
-          txn_event(8, t[0]), {"ev": "scrape"}, {"ev": "flush", "n": 9}, {"ev": "scrape"}]
+         [{"ev": "flush", "n": 9}, {"ev": "collect"}, {"ev": "scrape"}, cfg_event("start", coarse, fs[:1]), {"ev": "collect"}, {"ev": "scrape"}, txn_event(7, t[1]),
+          txn_event(8, t[0]), {"ev": "scrape"}, {"ev": "flush", "n": 9}, {"ev": "collect"}, {"ev": "scrape"}]
     out.append(script(base + 1, [], ev))
     # 3: nothing listed, no flows: only what is registered whatever the file says may show
-    ev = [cfg_event("start", none_, [])] + [txn_event(i + 1, x) for i, x in enumerate(t[:4])] + [{"ev": "scrape"}, {"ev": "flush", "n": 9}, {"ev": "scrape"},
-          cfg_event("reload", all_on, fs), {"ev": "scrape"}, txn_event(5, t[0]), txn_event(6, t[1]), {"ev": "flush", "n": 9}, {"ev": "scrape"}]
+    ev = [cfg_event("start", none_, [])] + [txn_event(i + 1, x) for i, x in enumerate(t[:4])] + [{"ev": "scrape"}, {"ev": "flush", "n": 9}, {"ev": "collect"}, {"ev": "scrape"},
+          cfg_event("reload", all_on, fs), {"ev": "scrape"}, txn_event(5, t[0]), txn_event(6, t[1]), {"ev": "flush", "n": 9}, {"ev": "collect"}, {"ev": "scrape"}]
     out.append(script(base + 2, [["a.t", "v", "{id}"]], ev))
     # 4: two filters of different keys counting under one label set (the scrape fails from the first coincidence until the restart)
     dup = [F("f4", ["a.t", "*"], True, ["http_method"]), F("f5", ["a.t", "v", "{id}"], True, ["http_method"], False, 0, False, [], True, True, ["http_method"])]
@@ -365,42 +385,37 @@ def judge(ctx, binary, scripts, tag, stats, par=4, chunk=40):
 
 
 # ------------------------------------------------------------------------------------------------------ TLC
-def write_cfg(sd, name, bug, txn, flush, reload_, restart, scrape, inv):
+def write_cfg(sd, name, bug, prof, inv):
+    tx, fl, rl, rs, sc, co, files, flows = prof
     open(os.path.join(sd, name), "w").write(
         "SPECIFICATION Spec\nCONSTANTS\n  Params = {\"{id}\", \"{x}\"}\n  Bug = \"%s\"\n  MaxTxn = %d\n  MaxFlush = %d\n  MaxReload = %d\n"
-        "  MaxRestart = %d\n  MaxScrape = %d\nINVARIANTS %s\nCHECK_DEADLOCK FALSE\n" % (bug, txn, flush, reload_, restart, scrape, inv))
+        "  MaxRestart = %d\n  MaxScrape = %d\n  MaxCollect = %d\n  FileSel = %s\n  FlowSel = %s\nINVARIANTS %s\nCHECK_DEADLOCK FALSE\n" % (
+            bug, tx, fl, rl, rs, sc, co, files, flows, inv))
     return name
 
 
 def model_checking(ctx):
     T = ctx.thorough
     sd = ctx.spec_dir(SPEC)
-    jobs = []
+    P, Q = PROFILES["thorough" if T else "quick"], PROFILES["quick"]
+    jobs = [("ok", write_cfg(sd, "MC_%s.cfg" % k, "none", P[k], "Accept"), "I=>P instance %s %s" % (k, P[k])) for k in sorted(P)]
     if not T:
-        jobs.append(("ok", write_cfg(sd, "MC_a.cfg", "none", 2, 2, 1, 0, 1, "Accept"), "I=>P: 2 transactions, 1 reload"))
-        jobs.append(("ok", write_cfg(sd, "MC_b.cfg", "none", 2, 2, 0, 1, 1, "Accept"), "I=>P: 2 transactions, 1 restart"))
-        k = ctx.seed % len(BUGS)
-        bugs = [BUGS[(k + i) % len(BUGS)] for i in range(4)]
-        benign = [BENIGN[ctx.seed % len(BENIGN)]]
-        wit = sorted(WITNESSES)[ctx.seed % len(WITNESSES):][:2] or sorted(WITNESSES)[:2]
+        # every run refutes some broken variants, accepts a benign one and reaches some witnesses; the thorough tier does all
+        rot = lambda names, n: [sorted(names)[(ctx.seed * n + i) % len(names)] for i in range(n)]
+        bugs, benign, wit = rot(BUGS, 4), rot(BENIGN, 1), rot(WITNESSES, 3)
     else:
-        jobs.append(("ok", write_cfg(sd, "MC_a.cfg", "none", 3, 2, 1, 1, 1, "Accept"), "I=>P: 3 transactions, 1 reload, 1 restart"))
-        jobs.append(("ok", write_cfg(sd, "MC_b.cfg", "none", 2, 2, 2, 0, 2, "Accept"), "I=>P: 2 transactions, 2 reloads"))
-        bugs, benign, wit = BUGS, BENIGN, sorted(WITNESSES)
+        bugs, benign, wit = sorted(BUGS), sorted(BENIGN), sorted(WITNESSES)
     for b in bugs:
-        jobs.append(("refute", write_cfg(sd, "MC_bug_%s.cfg" % b, b, 2, 2, 1, 0, 1, "Accept"), "non-vacuity: variant '%s' of I must be refuted" % b))
+        jobs.append(("refute", write_cfg(sd, "MC_bug_%s.cfg" % b, b, Q[BUGS[b]], "Accept"), "non-vacuity: variant '%s' of I must be refuted" % b))
     for b in benign:
-        jobs.append(("accept", write_cfg(sd, "MC_benign_%s.cfg" % b, b, 2 if b != "reload-as-documented" else 1, 2,
-                                         1 if b != "reload-as-documented" else 2, 0, 1, "Accept"), "benign variant '%s' of I must be accepted" % b))
+        jobs.append(("accept", write_cfg(sd, "MC_benign_%s.cfg" % b, b, Q[BENIGN[b]], "Accept"), "benign variant '%s' of I must be accepted" % b))
     for w in wit:
-        tx, rl, rs = WITNESSES[w]
-        jobs.append(("witness", write_cfg(sd, "MC_%s.cfg" % w, "none", tx, 2, rl, rs, 1, w), "witness %s must be reachable" % w))
+        jobs.append(("witness", write_cfg(sd, "MC_%s.cfg" % w, "none", Q[WITNESSES[w]], w), "witness %s must be reachable" % w))
 
     def one(job):
         kind, cfg, label = job
-        workers = 4 if kind == "ok" else 2
-        return job, ctx.tlc(sd, "MC_X09", cfg, workers=workers, timeout=1500 if T else 400, label=label, heap="3g" if kind == "ok" else "2g",
-                            count=(kind == "ok"))
+        return job, ctx.tlc(sd, "MC_X09", cfg, workers=4 if (T and kind == "ok") else 2, timeout=2400 if T else 400, label=label,
+                            heap="4g" if (T and kind == "ok") else "2g", count=(kind == "ok"))
     for (kind, cfg, label), r in parallel(one, jobs, n=4):
         if kind == "ok":
             if not r.ok:
@@ -430,7 +445,7 @@ def run(ctx):
                        "(0-4 flows over 7 URL patterns, 0-3 known endpoints, label lists incl. unsupported names, partial metric lists); every "
                        "event executed on a real engine process and judged by MetricsTrace; non-trivial = script with >= 2 non-empty flushes and a "
                        "scraped api_call_count series standing for >= 2 transactions")
-    ctx.cov["checker_cmd"] = "tlc -config MC_a.cfg MC_X09.tla ; tlc -config MetricsTrace.cfg MetricsTrace.tla"
+    ctx.cov["checker_cmd"] = "tlc -config MC_quick.cfg MC_X09.tla (instances a, b, c, d, r, l written by the driver) ; tlc -config MetricsTrace.cfg MetricsTrace.tla"
     ctx.cov["trusted_base"] = ["TLC 1.8", "CommunityModules Json", "Go toolchain",
                                "harness/cmd/x09 plays HAProxy (SPOE messages; one access-log record per transaction with the status the client saw) "
                                "and fluent-bit (hands the records to the plugin's discovery.Run, moves the state file's mtime by 1 s per flush)",
@@ -438,7 +453,8 @@ def run(ctx):
     ctx.assumptions += ["the plugin's known-endpoints tree is constant during a script and its inference threshold (50) is never reached",
                         "two flushes are at least one mtime tick apart (production: seconds)",
                         "flows of the generated shape only (Filter on x-a, optional GenerateResponse, optional response-side status Filter); no quota",
-                        "sequential traffic", "transaction_duration / provider_transaction_duration histograms are not judged"]
+                        "sequential traffic", "the histogram managers' tickers are replaced by explicit collection ticks (export under the verif tag)",
+                        "the policy-mode LegacyMetricManager runs next to a flows-mode engine (it reads nothing but the discovery state file)"]
     model_checking(ctx)
 
     stats = {"lifetimes": 0, "txns": 0, "scrapes": 0, "samples": 0, "events": 0, "devs": {}, "drifts": []}
